@@ -113,7 +113,9 @@ class Interpolator:
         else:
             self.xs = (np.array(fls),)
 
-            # Output values.
+            # Output values, in the same (flight level) order as the
+            # coordinate values.
+            df = df.sort_values('fl')
             self.tas = df.tas.values
             self.rocd = df.rocd.values
             self.fuel_flow = df.fuel_flow.values
